@@ -77,6 +77,13 @@ CHECKS = {
   design_ref="DESIGN.md §4 C14",
   technique="proptest + exhaustive method table + masked/unmasked differential oracle",
   note=TRUST + "; the unmasked reference is the same wallet directory opened without mask on a separate world copy"),
+ "C08": dict(
+  engine="pbt",
+  category="exploration",
+  text="Structural slate generator producing an intent record; for each of 9 encodings (V4 JSON, V4 binary, slatepack binary/JSON/armored, plain and age-encrypted) the decoded slate projected by the harness from Slate's public fields must equal the intent, a second round trip must be idempotent, fully signed slates (real two-party signing, every kernel feature) must keep a validating transaction, and addresses / onion addresses / stored records round-trip. 6k slates x 9 encodings + 160 signed + 16k misc per quick run.",
+  design_ref="DESIGN.md §4 C08",
+  technique="proptest structural generators + round-trip / cross-encoding differential oracle",
+  note=TRUST + "; the projection is computed by the harness, not by the crate's Slate->SlateV4 conversion; armoring of large slates is sampled (base58 is quadratic)"),
 }
 
 hooks_commits = subprocess.run(["git", "-C", "/repo", "log", "--format=%h %s"], stdout=subprocess.PIPE, text=True).stdout.splitlines()
